@@ -17,7 +17,7 @@ import (
 func init() {
 	register(&Prop{
 		ID: "C13", Level: "exploration",
-		Rule:        "seeded histories in which transactions of all four levels end by Commit (successful or failing with ErrTxSerialization) or Rollback and are then used again (Get, GetReader, GetKeys, Set, SetReader, Create, Delete, Commit, Rollback), plus handles naming never-begun transaction ids; inline and gRPC clients; after every step the autocommit caller, every open transaction (RU/RC/RR/SER readers) and every ended handle probe all keys and GetKeys, and half of the histories reopen the database at the end and probe again; all compared with the reference model (late use fails with ErrTxNotFound, Rollback is a no-op, nothing changes); evaluations = late calls + probes; distinct_nontrivial = distinct (late operation, level, how the transaction ended, client, result class) tuples",
+		Rule:        "seeded histories in which transactions of all four levels end by Commit (successful or failing with ErrTxSerialization) or Rollback and are then used again (Get, GetReader, GetKeys, Set, SetReader, Create, Delete, Commit, Rollback), plus handles naming never-begun transaction ids (UUID-shaped or not), and Commit/Rollback through handles that name no transaction at all (empty id, all-zero id); inline and gRPC clients; after every step the autocommit caller, every open transaction (RU/RC/RR/SER readers) and every ended handle probe all keys and GetKeys, and half of the histories reopen the database at the end and probe again; all compared with the reference model (late use fails with ErrTxNotFound, Rollback is a no-op, nothing changes); evaluations = late calls + probes; distinct_nontrivial = distinct (late operation, level, how the transaction ended, client, result class) tuples",
 		Assumptions: []string{"reference model refmodel"},
 		Roles: map[string]Role{
 			"main":       {N: func(t string) int { return tierN(t, 200, 6000) }, Case: c13Case},
@@ -50,7 +50,35 @@ func c13Case(tier string, seed int64, idx int, scratch string) rt.CaseResult {
 	}
 	// how each transaction ended, for the evidence
 	ended := map[int]string{}
-	out := runSeq(&c, scratch, "h", dbx.Options{Mode: mode}, steps, seqrun.Options{Probe: true, ProbeEnded: true}, seed)
+	// ending "no transaction": a handle that names no transaction at all, or the all-zero id the
+	// store uses for its committed state, is an unknown transaction like any other
+	noTx := func(r *seqrun.Runner, i int, s seqrun.Step) *seqrun.Mismatch {
+		if i%9 != 4 || s.Op == "reopen" {
+			return nil
+		}
+		for _, id := range []string{"", "00000000-0000-0000-0000-000000000000"} {
+			h := verif.TxHandle(r.Env.DB, id)
+			op, err := "commit", error(nil)
+			if (i/9)%2 == 0 {
+				err = h.Commit(ctxBg)
+				if seqrun.Class(err) != refmodel.TxNotFound {
+					return &seqrun.Mismatch{StepIdx: i, Step: s, Sig: fmt.Sprintf("late-op-accepted op=commit actor=no-transaction-id expected=ErrTxNotFound got=%s", seqrun.Class(err)), Expected: "ErrTxNotFound", Actual: fmt.Sprint(err), Probe: fmt.Sprintf("Commit through a handle naming transaction %q", id)}
+				}
+			} else {
+				op = "rollback"
+				if err = h.Rollback(ctxBg); err != nil {
+					return &seqrun.Mismatch{StepIdx: i, Step: s, Sig: "wrong-error op=rollback actor=no-transaction-id expected=ok got=" + string(seqrun.Class(err)), Expected: "ok", Actual: fmt.Sprint(err), Probe: fmt.Sprintf("Rollback through a handle naming transaction %q", id)}
+				}
+			}
+			r.Stats.OpClass[op+"/no-transaction-id/"+string(seqrun.Class(err))]++
+			if m := r.ProbeAll(i, s); m != nil {
+				m.Sig += " after-ending-no-transaction"
+				return m
+			}
+		}
+		return nil
+	}
+	out := runSeq(&c, scratch, "h", dbx.Options{Mode: mode}, steps, seqrun.Options{Probe: true, ProbeEnded: true, AfterStep: noTx}, seed)
 	if r := out.Runner; r != nil {
 		done := len(steps)
 		if out.Mism != nil {
@@ -100,6 +128,7 @@ func c13Concurrent(tier string, seed int64, idx int, scratch string) rt.CaseResu
 	defer env.Close()
 	rng := seqrun.Rng(seed, "C13c", idx)
 	env.DB.Set(ctxBg, "k", []byte("v0"))
+	curD := "<" + string(refmodel.NotFound) + ">"
 	iters := tierN(tier, 150, 400)
 	if mode == dbx.Grpc {
 		iters /= 4
@@ -159,6 +188,59 @@ func c13Concurrent(tier string, seed int64, idx int, scratch string) rt.CaseResu
 			}
 		}
 		c.AddDistinct(fmt.Sprintf("concurrent-end/%s/level%d/%s", modeName(mode), level, end))
+		// two goroutines end one transaction at the same time: whatever the two calls return,
+		// a Commit that returned nil has published the writes, and if none did nothing is visible
+		tx2, err := env.DB.Begin(ctxBg, verif.IsoLevel(rng.Intn(2)))
+		if err != nil {
+			c.Violate("begin-failed", err.Error(), nil)
+			return c
+		}
+		val := fmt.Sprintf("d%d-%d", idx, it)
+		tx2.Set(ctxBg, "d", []byte(val))
+		second := []string{"commit", "rollback"}[it%2]
+		var errs [2]error
+		start := make(chan struct{})
+		var ewg sync.WaitGroup
+		for g := 0; g < 2; g++ {
+			ewg.Add(1)
+			go func(g int) {
+				defer ewg.Done()
+				<-start
+				if g == 1 && second == "rollback" {
+					errs[g] = tx2.Rollback(ctxBg)
+				} else {
+					errs[g] = tx2.Commit(ctxBg)
+				}
+			}(g)
+		}
+		close(start)
+		ewg.Wait()
+		committed := errs[0] == nil || (second == "commit" && errs[1] == nil)
+		rp := map[string]any{"iteration": it, "mode": modeName(mode), "calls": "commit||" + second, "results": fmt.Sprint(errs[0], " / ", errs[1])}
+		for g, e := range errs {
+			if e != nil && seqrun.Class(e) != refmodel.TxNotFound {
+				c.Violate("wrong-error op=concurrent-end got="+string(seqrun.Class(e)), fmt.Sprintf("call %d of commit||%s on one transaction returned %v", g, second, e), rp)
+				return c
+			}
+		}
+		b, gerr := env.DB.Get(ctxBg, "d")
+		got := string(b)
+		if gerr != nil {
+			got = "<" + string(seqrun.Class(gerr)) + ">"
+		}
+		c.Evals++
+		switch {
+		case committed && got != val:
+			c.Violate("successful-commit-lost concurrent-end", fmt.Sprintf("commit||%s on one transaction: a Commit returned nil, but key d reads %s instead of %q", second, got, val), rp)
+			return c
+		case !committed && got != curD:
+			c.Violate("write-visible-without-commit concurrent-end", fmt.Sprintf("commit||%s on one transaction: no Commit returned nil, but key d reads %s instead of %s", second, got, curD), rp)
+			return c
+		}
+		if committed {
+			curD = val
+		}
+		c.AddDistinct(fmt.Sprintf("double-end/%s/commit||%s/committed=%v", modeName(mode), second, committed))
 	}
 	if idx == 0 {
 		c.Sample = map[string]any{"scenario": "3 goroutines read through a transaction while it is committed/rolled back; reads issued afterwards must fail", "iterations": iters}
